@@ -171,6 +171,11 @@ func (n *vpNext) Tx(ctx context.Context, hash []byte, prove bool) (*ctypes.Resul
 				r.Index = uint32(i + 1)
 			case 7: // the proof's own data replaced
 				r.Proof.Data = types.Tx{0x78}
+			case 8: // position and proof index both moved by the same arbitrary amount (e.g. one past the end)
+				d := vp.Int64("index-shift")
+				vp.Assume(d != 0 && d >= -3 && d <= 3 && int64(i)+d >= 0)
+				r.Index = uint32(int64(i) + d)
+				r.Proof.Proof.Index = int64(i) + d
 			}
 			return r, nil
 		}
@@ -218,7 +223,7 @@ func vpC20(method int) {
 		vpC20Check(honest, err, "block-results")
 	case 3:
 		if !honest {
-			tamper = 4 + vp.Choice("tamper-tx", 4)
+			tamper = 4 + vp.Choice("tamper-tx", 5)
 		}
 		next.tamper = tamper
 		i := vp.Choice("tx-index", 2)
